@@ -302,4 +302,461 @@ theorem deepText_textNode (t : Str) (as : List (Str × Str)) (s : Str) :
   | nil => simp [deepText, deepTextList]
   | cons c cs => simp [deepText, deepTextList]
 
+/-! ### what a field writes -/
+
+theorem encF_attrs (f : Field) (v : Val) : ∀ kv ∈ (encF f v).1, f.reads kv.1 = true := by
+  intro kv h
+  cases f with
+  | attr name ty omitD =>
+    simp only [encF] at h
+    split at h
+    · simp at h
+    · simp at h; subst h; simp [Field.reads]
+  | text ty => simp [encF] at h
+  | enumChild ns decl anyNs names m =>
+    simp only [encF] at h
+    split at h <;> simp at h
+  | child hd fs mode =>
+    simp only [encF] at h
+    split at h
+    · split at h <;> simp at h
+    · simp at h
+  | many hd fs =>
+    simp only [encF] at h
+    split at h <;> simp at h
+
+theorem encFs_attrs : ∀ (fs : List Field) (vs : List Val),
+    ∀ kv ∈ (encFs fs vs).1, ∃ f ∈ fs, f.reads kv.1 = true
+  | [], _, kv, h => by simp [encFs] at h
+  | _ :: _, [], kv, h => by simp [encFs] at h
+  | f :: fs, v :: vs, kv, h => by
+    simp only [encFs, List.mem_append] at h
+    rcases h with h | h
+    · exact ⟨f, by simp, encF_attrs f v kv h⟩
+    · obtain ⟨g, hg, hr⟩ := encFs_attrs fs vs kv h
+      exact ⟨g, by simp [hg], hr⟩
+
+theorem wfFs_cons {pns : Str} {f : Field} {fs : List Field} (h : wfFs pns (f :: fs) = true) :
+    wfF pns f = true ∧ (∀ g ∈ fs, indep f g = true ∧ indep g f = true) ∧ wfFs pns fs = true := by
+  simp only [wfFs, Bool.and_eq_true, List.all_eq_true] at h
+  exact ⟨h.1.1, h.1.2, h.2⟩
+
+theorem wfFs_mem : ∀ {pns : Str} {fs : List Field}, wfFs pns fs = true → ∀ f ∈ fs, wfF pns f = true
+  | _, [], _, f, hf => by simp at hf
+  | pns, g :: fs, h, f, hf => by
+    obtain ⟨h1, _, h3⟩ := wfFs_cons h
+    simp only [List.mem_cons] at hf
+    rcases hf with rfl | hf
+    · exact h1
+    · exact wfFs_mem h3 f hf
+
+theorem wfF_reads_xmlns {pns : Str} {f : Field} (h : wfF pns f = true) : f.reads xmlnsKey = false := by
+  cases f with
+  | attr name ty omitD =>
+    simp only [wfF, Bool.and_eq_true, bne_iff_ne, ne_eq] at h
+    simp [Field.reads, h.1]
+  | _ => rfl
+
+theorem encFs_no_xmlns {pns : Str} {fs : List Field} (vs : List Val) (h : wfFs pns fs = true) :
+    ∀ kv ∈ (encFs fs vs).1, ¬ kv.1 = xmlnsKey := by
+  intro kv hkv e
+  obtain ⟨f, hf, hr⟩ := encFs_attrs fs vs kv hkv
+  have := wfF_reads_xmlns (wfFs_mem h f hf)
+  rw [e] at hr
+  simp [this] at hr
+
+def Field.isText : Field → Bool
+  | .text _ => true
+  | _ => false
+
+theorem encF_kids (pns : Str) (f : Field) (v : Val) (hw : wfF pns f = true) (hc : canonF f v = true) :
+    ∀ k ∈ (encF f v).2, (f.isText = true ∧ k.isElem = false)
+      ∨ (k.isElem = true ∧ (k.name, k.nsOf pns) ∈ f.heads) := by
+  intro k hk
+  cases f with
+  | attr name ty omitD => simp [encF] at hk
+  | text ty =>
+    left
+    simp only [encF, textNode] at hk
+    split at hk
+    · simp at hk
+    · simp at hk; subst hk; simp [Field.isText, Node.isElem]
+  | enumChild ns decl anyNs names m =>
+    right
+    simp only [encF] at hk
+    split at hk
+    · rename_i i
+      simp only [List.mem_singleton] at hk
+      subst hk
+      simp only [canonF, decide_eq_true_eq] at hc
+      simp only [wfF, Bool.and_eq_true, Bool.or_eq_true, beq_iff_eq] at hw
+      have hns : (Node.elem (nth names i) (nsAttr decl ns) []).nsOf pns = ns := by
+        unfold nsAttr
+        cases hd : decl with
+        | true => simp [Node.nsOf, xmlnsKey]
+        | false =>
+          have : ns = pns := by simpa [hd] using hw.1.1
+          simp [Node.nsOf, this]
+      simp only [Node.isElem, Node.name, hns, Field.heads, List.mem_map, true_and]
+      exact ⟨nth names i, nth_mem hc, rfl⟩
+    · simp at hk
+  | child hd fs mode =>
+    right
+    simp only [wfF, Bool.and_eq_true] at hw
+    simp only [encF] at hk
+    split at hk
+    · rename_i vs
+      split at hk
+      · simp at hk
+      · simp only [List.mem_singleton] at hk
+        subst hk
+        rw [nsOf_mk' hd pns _ (encFs fs vs).2 hw.1 (encFs_no_xmlns vs hw.2)]
+        simp [Field.heads, Head.mk', Node.isElem, Node.name]
+    · simp at hk
+  | many hd fs =>
+    right
+    simp only [wfF, Bool.and_eq_true] at hw
+    simp only [encF] at hk
+    split at hk
+    · rename_i items
+      simp only [List.mem_map] at hk
+      obtain ⟨it, _, rfl⟩ := hk
+      rw [nsOf_mk' hd pns _ (encFs fs it.recVals).2 hw.1 (encFs_no_xmlns it.recVals hw.2)]
+      simp [Field.heads, Head.mk', Node.isElem, Node.name]
+    · simp at hk
+
+/-! ### independence of fields -/
+
+theorem indep_reads (f g : Field) (v : Val) (hi : indep f g = true) :
+    ∀ kv ∈ (encF g v).1, f.reads kv.1 = false := by
+  intro kv hkv
+  have hg := encF_attrs g v kv hkv
+  cases f with
+  | attr n ty o =>
+    cases g with
+    | attr n' ty' o' =>
+      simp only [indep, bne_iff_ne, ne_eq] at hi
+      simp only [Field.reads, beq_iff_eq] at hg
+      subst hg
+      simp [Field.reads, hi]
+    | _ => simp [Field.reads] at hg
+  | _ => rfl
+
+theorem heads_all_sees (pns : Str) (g : Field) (v : Val) (hwg : wfF pns g = true)
+    (hcg : canonF g v = true) (hgt : g.isText = false) (p : Str × Str → Bool)
+    (hall : g.heads.all (fun hd => !p hd) = true) :
+    ∀ k ∈ (encF g v).2, k.isElem = true ∧ p (k.name, k.nsOf pns) = false := by
+  intro k hk
+  rcases encF_kids pns g v hwg hcg k hk with h | h
+  · simp [hgt] at h
+  · simp only [List.all_eq_true, Bool.not_eq_true'] at hall
+    exact ⟨h.1, hall _ h.2⟩
+
+theorem indep_sees (pns : Str) (f g : Field) (v : Val) (hi : indep f g = true)
+    (hwg : wfF pns g = true) (hcg : canonF g v = true) :
+    ∀ k ∈ (encF g v).2, f.sees pns k = false := by
+  intro k hk
+  cases f with
+  | attr n ty o => rfl
+  | text ty =>
+    cases g <;> simp_all [indep, Field.emitsKids, encF]
+  | enumChild ns decl anyNs names m =>
+    cases hgt : g.isText with
+    | true => cases g <;> simp_all [indep, Field.isText]
+    | false =>
+      have hall : g.heads.all (fun hd => !(anyNs || hd.2 == ns)) = true := by
+        cases g <;> simp_all [indep, Field.isText] <;> assumption
+      have := heads_all_sees pns g v hwg hcg hgt
+        (fun hd => anyNs || hd.2 == ns) hall k hk
+      simp only [Field.sees, matchesNs, this.1, Bool.true_and]
+      exact this.2
+  | child h fs mode =>
+    cases hgt : g.isText with
+    | true =>
+      rcases encF_kids pns g v hwg hcg k hk with h' | h'
+      · simp [Field.sees, Head.matches, h'.2]
+      · cases g <;> simp_all [Field.isText, Field.heads]
+    | false =>
+      have hall : g.heads.all (fun hd => !(hd.1 == h.tag && (h.anyNs || hd.2 == h.ns))) = true := by
+        cases g <;> simp_all [indep, Field.isText]
+      have := heads_all_sees pns g v hwg hcg hgt
+        (fun hd => hd.1 == h.tag && (h.anyNs || hd.2 == h.ns)) hall k hk
+      simp only [Field.sees, Head.matches, this.1, Bool.true_and]
+      exact this.2
+  | many h fs =>
+    cases hgt : g.isText with
+    | true =>
+      rcases encF_kids pns g v hwg hcg k hk with h' | h'
+      · simp [Field.sees, Head.matches, h'.2]
+      · cases g <;> simp_all [Field.isText, Field.heads]
+    | false =>
+      have hall : g.heads.all (fun hd => !(hd.1 == h.tag && (h.anyNs || hd.2 == h.ns))) = true := by
+        cases g <;> simp_all [indep, Field.isText]
+      have := heads_all_sees pns g v hwg hcg hgt
+        (fun hd => hd.1 == h.tag && (h.anyNs || hd.2 == h.ns)) hall k hk
+      simp only [Field.sees, Head.matches, this.1, Bool.true_and]
+      exact this.2
+
+theorem encFs_sees (pns : Str) (f : Field) : ∀ (fs : List Field) (vs : List Val),
+    wfFs pns fs = true → canonFs fs vs = true → (∀ g ∈ fs, indep f g = true) →
+    ∀ k ∈ (encFs fs vs).2, f.sees pns k = false
+  | [], _, _, _, _, k, hk => by simp [encFs] at hk
+  | _ :: _, [], _, hc, _, k, hk => by simp [encFs] at hk
+  | g :: fs, v :: vs, hw, hc, hi, k, hk => by
+    obtain ⟨hwg, _, hwfs⟩ := wfFs_cons hw
+    simp only [canonFs, Bool.and_eq_true] at hc
+    simp only [encFs, List.mem_append] at hk
+    rcases hk with hk | hk
+    · exact indep_sees pns f g v (hi g (by simp)) hwg hc.1 k hk
+    · exact encFs_sees pns f fs vs hwfs hc.2 (fun g' hg' => hi g' (by simp [hg'])) k hk
+
+/-! ### the generic round trip: one induction over the field list -/
+
+theorem reads_false_ne {f : Field} {name : Str} {ty : FTy} {o : Bool} (h : f = .attr name ty o)
+    {k : Str} (hr : f.reads k = false) : ¬ k = name := by
+  subst h
+  simp only [Field.reads, beq_eq_false_iff_ne, ne_eq] at hr
+  exact fun e => hr e.symm
+
+theorem head_matches_mk' (h : Head) (pns : Str) (as : List (Str × Str)) (ks : List Node)
+    (hok : h.ok pns = true) (hx : ∀ kv ∈ as, ¬ kv.1 = xmlnsKey) :
+    h.matches pns (h.mk' as ks) = true := by
+  have := nsOf_mk' h pns as ks hok hx
+  simp only [Head.matches, this]
+  simp [Head.mk', Node.isElem, Node.name]
+
+mutual
+theorem decF_encF : ∀ (f : Field) (pns t : Str) (P R : List (Str × Str)) (Q S : List Node) (v : Val),
+    wfF pns f = true → canonF f v = true →
+    (∀ kv ∈ P, f.reads kv.1 = false) → (∀ kv ∈ R, f.reads kv.1 = false) →
+    (∀ k ∈ Q, f.sees pns k = false) → (∀ k ∈ S, f.sees pns k = false) →
+    decF pns (.elem t (P ++ ((encF f v).1 ++ R)) (Q ++ ((encF f v).2 ++ S))) f = v
+  | .attr name ty omitD, pns, t, P, R, Q, S, v, hw, hc, hP, hR, _, _ => by
+    simp only [wfF, Bool.and_eq_true] at hw
+    simp only [canonF] at hc
+    have hP' : ∀ kv ∈ P, ¬ kv.1 = name := fun kv hkv => reads_false_ne rfl (hP kv hkv)
+    have hR' : ∀ kv ∈ R, ¬ kv.1 = name := fun kv hkv => reads_false_ne rfl (hR kv hkv)
+    simp only [decF, Node.attrs, encF]
+    rw [attr_append_of_not_mem P _ name hP']
+    split
+    · rename_i hcond
+      simp only [Bool.and_eq_true] at hcond
+      rw [List.nil_append, attr_of_not_mem R name hR']
+      exact FTy.parse_nil_of_default ty v hw.2 hc hcond.2
+    · rw [List.singleton_append, attr_cons_self]
+      exact FTy.parse_show ty v hw.2 hc
+  | .text ty, pns, t, P, R, Q, S, v, hw, hc, _, _, hQ, hS => by
+    simp only [wfF] at hw
+    simp only [canonF] at hc
+    have hQ' : Q = [] := List.eq_nil_iff_forall_not_mem.mpr (fun k hk => by simpa [Field.sees] using hQ k hk)
+    have hS' : S = [] := List.eq_nil_iff_forall_not_mem.mpr (fun k hk => by simpa [Field.sees] using hS k hk)
+    subst hQ' hS'
+    simp only [decF, encF, List.nil_append, List.append_nil, deepText_textNode]
+    exact FTy.parse_show ty v hw hc
+  | .enumChild ns decl anyNs names m, pns, t, P, R, Q, S, v, hw, hc, _, _, hQ, hS => by
+    simp only [Field.sees] at hQ hS
+    simp only [decF, Node.kids, encF]
+    rw [find?_frame _ Q _ hQ]
+    cases v with
+    | opt i =>
+      cases i with
+      | none =>
+        simp only [List.nil_append, find?_none_of_all_false _ S hS]
+      | some i =>
+        simp only [canonF, decide_eq_true_eq] at hc
+        simp only [wfF, Bool.and_eq_true, Bool.or_eq_true, beq_iff_eq, Bool.not_eq_true',
+          contains_false_iff] at hw
+        have hns : (Node.elem (nth names i) (nsAttr decl ns) []).nsOf pns = ns := by
+          unfold nsAttr
+          cases hd : decl with
+          | true => simp [Node.nsOf, xmlnsKey]
+          | false =>
+            have : ns = pns := by simpa [hd] using hw.1.1
+            simp [Node.nsOf, this]
+        have hm : matchesNs ns anyNs pns (Node.elem (nth names i) (nsAttr decl ns) []) = true := by
+          simp [matchesNs, hns, Node.isElem]
+        simp only [List.singleton_append, List.find?_cons, hm, Node.name, idxOf_nth hw.2 hc]
+    | _ => simp [canonF] at hc
+  | .child h fs mode, pns, t, P, R, Q, S, v, hw, hc, _, _, hQ, hS => by
+    simp only [Field.sees] at hQ hS
+    simp only [wfF, Bool.and_eq_true] at hw
+    simp only [decF, Node.kids, encF]
+    rw [find?_frame _ Q _ hQ]
+    cases v with
+    | absent =>
+      simp only [canonF] at hc
+      simp only [List.nil_append, find?_none_of_all_false _ S hS, hc, if_true]
+    | record vs =>
+      simp only [canonF] at hc
+      cases hcond : (mode == ChildMode.wrapOmit && (encFs fs vs).1.isEmpty && (encFs fs vs).2.isEmpty) with
+      | true =>
+        -- wrapper omitted: everything inside is empty
+        simp only [hcond, ↓reduceIte]
+        simp only [Bool.and_eq_true, List.isEmpty_iff] at hcond
+        have hmode : (mode == ChildMode.optional) = false := by
+          have h1 := hcond.1.1
+          cases mode <;> first | rfl | exact absurd h1 (by decide)
+        simp only [List.nil_append, find?_none_of_all_false _ S hS, hmode, Bool.false_eq_true, if_false]
+        have := decFs_encFs fs h.ns [] [] [] vs hw.2 hc (by simp) (by simp)
+        rw [hcond.1.2, hcond.2] at this
+        simpa [nullNode] using congrArg Val.record this
+      | false =>
+        simp only [hcond, Bool.false_eq_true, ↓reduceIte]
+        have hx := encFs_no_xmlns vs hw.2
+        have hm := head_matches_mk' h pns (encFs fs vs).1 (encFs fs vs).2 hw.1 hx
+        simp only [List.singleton_append, List.find?_cons, hm]
+        rw [nsOf_mk' h pns _ _ hw.1 hx]
+        have := decFs_encFs fs h.ns h.tag (nsAttr h.decl h.ns) [] vs hw.2 hc
+          (by
+            intro kv hkv f hf
+            have hk : kv.1 = xmlnsKey := by
+              unfold nsAttr at hkv
+              split at hkv <;> simp at hkv
+              rw [hkv]
+            rw [hk]; exact wfF_reads_xmlns (wfFs_mem hw.2 f hf))
+          (by simp)
+        simpa [Head.mk'] using congrArg Val.record this
+    | _ => simp [canonF] at hc
+  | .many h fs, pns, t, P, R, Q, S, v, hw, hc, _, _, hQ, hS => by
+    simp only [Field.sees] at hQ hS
+    simp only [wfF, Bool.and_eq_true] at hw
+    simp only [decF, Node.kids, encF]
+    cases v with
+    | list items =>
+      simp only [canonF, List.all_eq_true] at hc
+      have hall : ∀ k ∈ items.map (fun it => h.mk' (encFs fs it.recVals).1 (encFs fs it.recVals).2),
+          h.matches pns k = true := by
+        intro k hk
+        simp only [List.mem_map] at hk
+        obtain ⟨it, _, rfl⟩ := hk
+        exact head_matches_mk' h pns _ _ hw.1 (encFs_no_xmlns it.recVals hw.2)
+      rw [List.filter_append, List.filter_append, filter_nil_of_all_false _ Q hQ,
+        filter_nil_of_all_false _ S hS, filter_self_of_all_true _ _ hall, List.nil_append, List.append_nil,
+        List.map_map]
+      congr 1
+      induction items with
+      | nil => rfl
+      | cons it items ih =>
+        have hit := hc it (by simp)
+        have ih' := ih (fun x hx => hc x (by simp [hx]))
+          (fun k hk => hall k (by simp only [List.map_cons, List.mem_cons]; exact Or.inr hk))
+        simp only [List.map_cons, ih']
+        congr 1
+        cases it with
+        | record vs =>
+          simp only at hit
+          have hx := encFs_no_xmlns vs hw.2
+          simp only [Function.comp, Val.recVals]
+          rw [nsOf_mk' h pns _ _ hw.1 hx]
+          have := decFs_encFs fs h.ns h.tag (nsAttr h.decl h.ns) [] vs hw.2 hit
+            (by
+              intro kv hkv f hf
+              have hk : kv.1 = xmlnsKey := by
+                unfold nsAttr at hkv
+                split at hkv <;> simp at hkv
+                rw [hkv]
+              rw [hk]; exact wfF_reads_xmlns (wfFs_mem hw.2 f hf))
+            (by simp)
+          simpa [Head.mk'] using congrArg Val.record this
+        | _ => simp at hit
+    | _ => simp [canonF] at hc
+theorem decFs_encFs : ∀ (fs : List Field) (pns t : Str) (P : List (Str × Str)) (Q : List Node) (vs : List Val),
+    wfFs pns fs = true → canonFs fs vs = true →
+    (∀ kv ∈ P, ∀ f ∈ fs, f.reads kv.1 = false) → (∀ k ∈ Q, ∀ f ∈ fs, f.sees pns k = false) →
+    decFs pns (.elem t (P ++ (encFs fs vs).1) (Q ++ (encFs fs vs).2)) fs = vs
+  | [], pns, t, P, Q, vs, _, hc, _, _ => by
+    cases vs with
+    | nil => simp [decFs]
+    | cons v vs => simp [canonFs] at hc
+  | f :: fs, pns, t, P, Q, [], _, hc, _, _ => by simp [canonFs] at hc
+  | f :: fs, pns, t, P, Q, v :: vs, hw, hc, hP, hQ => by
+    obtain ⟨hwf, hind, hwfs⟩ := wfFs_cons hw
+    simp only [canonFs, Bool.and_eq_true] at hc
+    simp only [decFs, encFs]
+    congr 1
+    · -- the head field: later fields' output is invisible to it
+      apply decF_encF f pns t P (encFs fs vs).1 Q (encFs fs vs).2 v hwf hc.1
+      · exact fun kv hkv => hP kv hkv f (by simp)
+      · intro kv hkv
+        obtain ⟨g, hg, hr⟩ := encFs_attrs fs vs kv hkv
+        cases hfr : f.reads kv.1 with
+        | false => rfl
+        | true =>
+          exfalso
+          have hi := (hind g hg).1
+          cases f with
+          | attr n ty o =>
+            cases g with
+            | attr n' ty' o' =>
+              simp only [indep, bne_iff_ne, ne_eq] at hi
+              simp only [Field.reads, beq_iff_eq] at hfr hr
+              exact hi (hfr.trans hr.symm)
+            | _ => simp [Field.reads] at hr
+          | _ => simp [Field.reads] at hfr
+      · exact fun k hk => hQ k hk f (by simp)
+      · intro k hk
+        exact encFs_sees pns f fs vs hwfs hc.2 (fun g hg => (hind g hg).1) k hk
+    · -- the remaining fields: the head field's output is invisible to them
+      have := decFs_encFs fs pns t (P ++ (encF f v).1) (Q ++ (encF f v).2) vs hwfs hc.2
+        (by
+          intro kv hkv g hg
+          simp only [List.mem_append] at hkv
+          rcases hkv with hkv | hkv
+          · exact hP kv hkv g (by simp [hg])
+          · exact indep_reads g f v (hind g hg).2 kv hkv)
+        (by
+          intro k hk g hg
+          simp only [List.mem_append] at hk
+          rcases hk with hk | hk
+          · exact hQ k hk g (by simp [hg])
+          · exact indep_sees pns g f v (hind g hg).2 hwf hc.1 k hk)
+      simpa [List.append_assoc] using this
+end
+
+/-! ### every decode result is canonical -/
+
+mutual
+theorem canonF_decF : ∀ (f : Field) (pns : Str) (x : Node), canonF f (decF pns x f) = true
+  | .attr name ty o, pns, x => by simp only [decF, canonF, FTy.canon_parse]
+  | .text ty, pns, x => by simp only [decF, canonF, FTy.canon_parse]
+  | .enumChild ns decl anyNs names m, pns, x => by
+    simp only [decF]
+    split
+    · rename_i k _
+      cases hi : idxOf k.name names with
+      | none => rfl
+      | some i => simp [canonF, idxOf_lt hi]
+    · rfl
+  | .child h fs mode, pns, x => by
+    simp only [decF]
+    split
+    · simp only [canonF]; exact canonFs_decFs fs _ _
+    · split
+      · rename_i hm; simp only [canonF, hm]
+      · simp only [canonF]; exact canonFs_decFs fs _ _
+  | .many h fs, pns, x => by
+    simp only [decF, canonF, List.all_eq_true, List.mem_map]
+    rintro it ⟨k, _, rfl⟩
+    exact canonFs_decFs fs _ _
+theorem canonFs_decFs : ∀ (fs : List Field) (pns : Str) (x : Node), canonFs fs (decFs pns x fs) = true
+  | [], pns, x => by simp [decFs, canonFs]
+  | f :: fs, pns, x => by
+    simp only [decFs, canonFs, Bool.and_eq_true]
+    exact ⟨canonF_decF f pns x, canonFs_decFs fs pns x⟩
+end
+
+/-- schemas without mandatory parts accept every value list -/
+theorem mandOK_of_noMand : ∀ (fs : List Field) (vs : List Val), noMandFs fs = true → mandOK fs vs = true
+  | [], _, _ => by simp [mandOK]
+  | f :: fs, [], _ => by cases f <;> simp [mandOK]
+  | f :: fs, v :: vs, h => by
+    simp only [noMandFs, Bool.and_eq_true] at h
+    have ih := mandOK_of_noMand fs vs h.2
+    cases f with
+    | enumChild ns decl anyNs names m =>
+      cases m with
+      | true => simp [noMandF] at h
+      | false => simp [mandOK, ih]
+    | _ => simp [mandOK, ih]
+
 end Qx.Xml.Codec
